@@ -176,9 +176,24 @@ def fingerprint(trace):
     return h
 
 
+def encode(acts):
+    z = 0
+    for k, a in enumerate(acts):
+        if a[0] == 'enter':
+            d = 1
+        elif a[0] == 'wake':
+            d = 2 + 4 * a[1]
+        else:
+            assert -512 <= a[1] < 2 ** 17
+            d = 3 + 4 * (a[1] + 512)
+        assert 0 < d < 2 ** 20
+        z |= d << (20 * k)
+    return z
+
+
 def model_fingerprints(ctx, schedules):
-    exprs = [f'fingerprint {zlit(s["window"])} {zlit(s["count"])} {coq_actions(s["acts"])}' for s in schedules]
-    return coq_eval(ctx, HEADER, exprs, shard=max(50, min(400, len(exprs) // 16 + 1)), label='fp')
+    exprs = [f'fingerprint {zlit(s["window"])} {zlit(s["count"])} (decode {len(s["acts"])} {encode(s["acts"])})' for s in schedules]
+    return coq_eval(ctx, HEADER, exprs, shard=max(500, len(exprs) // 6 + 1), label='fp')
 
 
 def model_traces(ctx, schedules):
